@@ -213,9 +213,11 @@ def run_unit(unit, rng, ctx):
                 present = list(dict.fromkeys(live.names))
                 k = int(rng.integers(1, len(present) + 1))
                 chosen = [str(x) for x in rng.choice(present, size=k, replace=False)]
-                form = int(rng.integers(6))
-                arg = chosen[0] if (len(chosen) == 1 and form < 2) else [tuple(chosen), list(chosen), set(chosen), frozenset(chosen), dict.fromkeys(chosen).keys(), tuple(chosen)][form]
-                ctx.count(f'filter_argument:{type(arg).__name__}')
+                form = int(rng.integers(8))
+                # forms 6 / 7: a collection naming species more than once (per-atom lists, numpy arrays of names)
+                rep_ = [c_ for c_ in chosen for _ in range(int(rng.integers(1, 4)))]
+                arg = chosen[0] if (len(chosen) == 1 and form < 2) else [tuple(chosen), list(chosen), set(chosen), frozenset(chosen), dict.fromkeys(chosen).keys(), tuple(chosen), [rep_[i_] for i_ in rng.permutation(len(rep_))], np.array(rep_)][form]
+                ctx.count(f'filter_argument:{type(arg).__name__}' + ('(repeated names)' if form >= 6 else ''))
                 new = o.filter(arg)
                 mask = np.array([n in chosen for n in live.names])
                 pool.append(Live(new, live.P[:, mask], [n for n in live.names if n in chosen], m, dt, live.meta, f'{live.origin}.filter({arg!r})'))
